@@ -5,6 +5,7 @@ import (
 	"reflect"
 	"runtime"
 	"sort"
+	"strconv"
 	"strings"
 	"sync"
 	"sync/atomic"
@@ -120,6 +121,9 @@ func foreignOverride(v *tplVer) (bool, string) {
 var imgBytes sync.Map // gen.Img -> []byte
 
 func imageData(im gen.Img) []byte {
+	if im.Fmt == "broken" { // a payload that is no picture at all
+		return []byte("this is not a picture " + strconv.Itoa(im.Pat))
+	}
 	if b, ok := imgBytes.Load(im); ok {
 		return b.([]byte)
 	}
@@ -145,6 +149,10 @@ func (d *Data) templateData() *document.TemplateData {
 		td.SetList(k, goList(l))
 	}
 	for k, im := range d.Images {
+		if im.Fmt == "nofile" { // a picture given by the path of a file that does not exist
+			td.SetImage(k, "/nonexistent/wz-c17/"+im.Name+".png", nil)
+			continue
+		}
 		// the engine gets its own copy of the payload: the cached encoding stays pristine
 		td.SetImageFromData(k, append([]byte(nil), imageData(im)...), nil)
 	}
@@ -242,6 +250,9 @@ type runner struct {
 	res *kit.Result
 	eng *document.TemplateEngine
 	m   *model
+	// the other engine of the process (op "other"), created on first use
+	other      *document.TemplateEngine
+	otherCalls int
 	// observations for labels / the non-trivial rule
 	renders, rendersAfterChange, boundLoads, loads, reloads                                 int
 	sawBaseAfterChild, sawSibling, sawChain3, sawStale, sawUnbound, sawAbsent, sawDocRender bool
@@ -252,6 +263,8 @@ type runner struct {
 	kept                                                   []*kept
 	rechecks, edits                                        int
 	sawImgFmtChange, sawSpareRels, sawSpareCT, sawKeptSame bool
+	sawDocDerived                                          bool // LoadTemplateFromDocument of a document with {{extends}} bound to a loaded parent
+	maxLive                                                int  // largest number of names alive on the engine at once
 }
 
 // loadOn issues the load of v on an engine; the base document of a doc template is built anew.
@@ -330,10 +343,16 @@ func (x *runner) load(i int, op Op) {
 			x.sawReloadOtherSrc = true
 		}
 	}
+	if len(x.m.cache) > x.maxLive {
+		x.maxLive = len(x.m.cache)
+	}
 	if v.parent != nil {
 		x.boundLoads++
 		if v.parent.kind == "doc" {
 			x.sawDocExt = true
+		}
+		if v.kind == "doc" {
+			x.sawDocDerived = true
 		}
 	} else if v.extends != "" {
 		x.sawUnbound = true
@@ -565,6 +584,24 @@ func (x *runner) step(i int, op Op) {
 			return
 		}
 		x.edit(i, op)
+	case "other":
+		if x.other == nil {
+			x.other = document.NewTemplateEngine()
+		}
+		x.otherCalls++
+		// nothing is judged here: whatever this does to the engine under test shows in the renders that follow
+		kit.Try(func() {
+			switch op.Sub {
+			case "load":
+				x.other.LoadTemplate(op.Name, op.Src)
+			case "render":
+				renderOn(x.other, op.Name, op.Entry, x.c.data(op.Data).templateData())
+			case "remove":
+				x.other.RemoveTemplate(op.Name)
+			case "clear":
+				x.other.ClearCache()
+			}
+		})
 	case "remove":
 		if x.m.cache[op.Name] != nil {
 			x.sawRemoveLive = true
@@ -627,8 +664,8 @@ func planConc(cc *Conc) concPlan {
 	}
 	for _, w := range cc.Workers {
 		for _, j := range w {
-			if j.K == "load" {
-				if e := extendsOf(j.Src); e != "" {
+			if j.K == "load" || j.K == "loaddoc" {
+				if e := verOf(j, -1).extends; e != "" {
 					p.extLoads++
 					if touched[e] > 0 {
 						p.why = "concurrent load extends the concurrently mutated name " + e
